@@ -243,7 +243,11 @@ def check(index, ctx):
             # third spelling: isin(arange(m), selected)
             isn = [e for e in ops if e["sop"] == "isin" and t2 and t2[0]["id"] in e["in_origin"]]
             ok3c = not oh and not sc and len(isn) == 1 and isn[0].get("in_idx_of") == "R" and isn[0].get("size_poly") == m and isn[0].get("range_full")
-            ok3b = ok3b or ok3c
+            # fourth spelling: bincount(selected, minlength=m) — topk returns distinct indices, so every count is 0 or 1
+            bc = [e for e in ops if e["sop"] == "bincount" and t2 and t2[0]["id"] in e["in_origin"]]
+            ok3d = not oh and not sc and not isn and len(bc) == 1 and bc[0].get("classes_poly") == m and bc[0].get("in_idx_of") == "R"
+            ok3b = ok3b or ok3c or ok3d
+            isn = isn or bc
             ctx.require(ok3 or ok3b, "K", "Krum: weights are indicator vectors of the selected rows", "one_hot(selected indices, m) / zeros(m) with ones stored at the selected indices",
                         "selected indices are not turned into indicator vectors over the m rows", (oh or sc or isn)[0]["loc"] if (oh or sc or isn) else cls.loc())
             # weights = sum of one-hots / n_selected
